@@ -105,6 +105,16 @@ Definition rep_code (scope : bool) (st : astate QJ) (now : Z) (impl spec : rrep)
   else if negb (let exact := qj_floor (a_jit st) in
                 if exact <? 4294967294 then near32 jitter exact (1 + exact / 1099511627776) else true)
        then 6%nat
+  (* deepening round: a report taken BEFORE the arrival instant of the latest SR (the clock
+     stepped backwards): DLSR = - |elapsed| * 65536 / 1e9 modulo 2^32 (the value that keeps the
+     sender's round-trip computation A - LSR - DLSR consistent in 32-bit arithmetic), within
+     one unit; before this round such reports were not checked (code 5 needs elapsed >= 0) *)
+  else if negb (match a_lsr_time st with
+                | None => true
+                | Some t =>
+                    let b := t - now in
+                    if (0 <? b) && (b <=? MaxDur) then near32 delay (- qdlsr b) 1 else true
+                end) then 9%nat
   else 0%nat.
 
 Fixpoint core_code (rate : Z) (scope : bool) (st : astate QJ) (ops : list crop) : nat :=
